@@ -128,6 +128,7 @@ struct Ctx
         h.str(cfg);
         h.str(c.desc);
         L.distinct.insert(h.h);
+        L.sample("{\"configuration\": " + jstr(cfg) + ", \"input\": " + jstr(c.desc) + "}", 4);
     }
     void v(const std::string& clause, const std::string& d) { L.violate(cfg + "|" + c.desc + "|" + clause, c.replay, d); }
 };
